@@ -173,6 +173,7 @@ func (s *stampDb) verifyTx(tx *bbolt.Tx, deep bool) (int64, []string) {
 			q   string
 			exp []string
 		}{
+			{"", allIds},
 			{fmt.Sprintf("gen = %d", g), allIds},
 			{fmt.Sprintf("gen != %d", g), nil},
 			{fmt.Sprintf(`anyOf(roles) = "%s"`, genRole(g)), allIds},
